@@ -171,14 +171,15 @@ theorem cs3 (a b c x y z : ℝ) : (a * x + b * y + c * z) ^ 2 ≤ (a ^ 2 + b ^ 2
 
 /-- Inputs `q_i = e_i ⊗ c` placed symmetrically around a unit centre `c`: the offsets `e_i` are unit
     quaternions closed under conjugation (`e (σ i) = (e i)*` for an involution `σ`, equal weights on a
-    pair), each less than a quarter turn from the identity (`e_w² > 1/2`, i.e. half-angle < π/4),
-    weights non-negative with positive sum.  Then `c` satisfies the eigenvector contract for
-    `Σ w_i q_i q_iᵀ` and every vector satisfying it is `±c`. -/
-theorem symmetric_centre_dominant {n : Nat} (w : Fin n → ℝ) (e : Fin n → Q ℝ) (c : Q ℝ)
+    pair).  Weights are non-negative except possibly on inputs that coincide with the centre
+    (`e_w² = 1`, e.g. the central sigma point of an unscented set), and the gap
+    `Σ w_i (2 e_{i,w}² − 1) = Σ w_i cos(angle_i)` is positive.  Then `c` satisfies the eigenvector
+    contract for `Σ w_i q_i q_iᵀ` and every vector satisfying it is `±c`. -/
+theorem symmetric_centre_dominant_gen {n : Nat} (w : Fin n → ℝ) (e : Fin n → Q ℝ) (c : Q ℝ)
     (σ : Fin n → Fin n) (hσ : Function.Involutive σ)
     (hc : c.normSq = 1) (he : ∀ i, (e i).normSq = 1)
     (hconj : ∀ i, e (σ i) = (e i).conj) (hwσ : ∀ i, w (σ i) = w i)
-    (hw : ∀ i, 0 ≤ w i) (hsum : 0 < ∑ i, w i) (hquarter : ∀ i, 1 / 2 < (e i).w ^ 2) :
+    (hw : ∀ i, 0 ≤ w i ∨ (e i).w ^ 2 = 1) (hgap : 0 < ∑ i, w i * (2 * (e i).w ^ 2 - 1)) :
     IsDominantEigvec (outerSum w (fun i => ((e i).mul c).get)) c.get ∧
     ∀ v, IsDominantEigvec (outerSum w (fun i => ((e i).mul c).get)) v → v = c.get ∨ v = -c.get := by
   set a : ℝ := ∑ i, w i * (e i).w ^ 2 with ha
@@ -208,15 +209,7 @@ theorem symmetric_centre_dominant {n : Nat} (w : Fin n → ℝ) (e : Fin n → Q
     rw [← Finset.sum_mul, ← Finset.mul_sum]
     ring
   · -- `t < a`
-    have hpos : 0 < ∑ i, w i * (2 * (e i).w ^ 2 - 1) := by
-      have hex : ∃ i ∈ Finset.univ, 0 < w i := by
-        by_contra hno
-        push Not at hno
-        have : ∑ i, w i ≤ 0 := Finset.sum_nonpos (fun i hi => hno i hi)
-        linarith
-      obtain ⟨i0, _, hi0⟩ := hex
-      refine Finset.sum_pos' (fun i _ => mul_nonneg (hw i) (by linarith [hquarter i])) ⟨i0, Finset.mem_univ _, ?_⟩
-      exact mul_pos hi0 (by linarith [hquarter i0])
+    have hpos := hgap
     have : a - t = ∑ i, w i * (2 * (e i).w ^ 2 - 1) := by
       rw [ha, ht, ← Finset.sum_sub_distrib]
       exact Finset.sum_congr rfl (fun i _ => by ring)
@@ -245,13 +238,38 @@ theorem symmetric_centre_dominant {n : Nat} (w : Fin n → ℝ) (e : Fin n → Q
       have : w i * (e i).dot y ^ 2 + w i * (e i).conj.dot y ^ 2
           = w i * ((e i).dot y ^ 2 + (e i).conj.dot y ^ 2) := by ring
       rw [this, e1]
-      nlinarith [mul_le_mul_of_nonneg_left hcs (hw i)]
+      rcases hw i with hwi | hone
+      · nlinarith [mul_le_mul_of_nonneg_left hcs hwi]
+      · have hz : (e i).x ^ 2 + (e i).y ^ 2 + (e i).z ^ 2 = 0 := by rw [hunit, hone]; ring
+        have hx0 : (e i).x = 0 := by nlinarith [sq_nonneg (e i).x, sq_nonneg (e i).y, sq_nonneg (e i).z]
+        have hy0 : (e i).y = 0 := by nlinarith [sq_nonneg (e i).x, sq_nonneg (e i).y, sq_nonneg (e i).z]
+        have hz0 : (e i).z = 0 := by nlinarith [sq_nonneg (e i).x, sq_nonneg (e i).y, sq_nonneg (e i).z]
+        rw [hx0, hy0, hz0, hone]; ring_nf; exact le_refl _
     calc (1 / 2) * ∑ i, (w i * (e i).dot y ^ 2 + w (σ i) * (e (σ i)).dot y ^ 2)
         ≤ (1 / 2) * ∑ i, 2 * (w i * (e i).w ^ 2 * y.w ^ 2 + w i * (1 - (e i).w ^ 2) * (y.normSq - y.w ^ 2)) := by
           apply mul_le_mul_of_nonneg_left (Finset.sum_le_sum (fun i _ => hterm i)) (by norm_num)
       _ = a * (c.get ⬝ᵥ u) ^ 2 + t * (u ⬝ᵥ u - (c.get ⬝ᵥ u) ^ 2) := by
           rw [ha, ht, ← hyw, ← hyn, ← Finset.mul_sum, Finset.sum_add_distrib, Finset.sum_mul, Finset.sum_mul]
           ring
+
+/-- non-negative weights with positive sum, every offset less than a quarter turn from the identity
+    (`e_w² > 1/2`, half-angle < π/4) -/
+theorem symmetric_centre_dominant {n : Nat} (w : Fin n → ℝ) (e : Fin n → Q ℝ) (c : Q ℝ)
+    (σ : Fin n → Fin n) (hσ : Function.Involutive σ)
+    (hc : c.normSq = 1) (he : ∀ i, (e i).normSq = 1)
+    (hconj : ∀ i, e (σ i) = (e i).conj) (hwσ : ∀ i, w (σ i) = w i)
+    (hw : ∀ i, 0 ≤ w i) (hsum : 0 < ∑ i, w i) (hquarter : ∀ i, 1 / 2 < (e i).w ^ 2) :
+    IsDominantEigvec (outerSum w (fun i => ((e i).mul c).get)) c.get ∧
+    ∀ v, IsDominantEigvec (outerSum w (fun i => ((e i).mul c).get)) v → v = c.get ∨ v = -c.get := by
+  refine symmetric_centre_dominant_gen w e c σ hσ hc he hconj hwσ (fun i => Or.inl (hw i)) ?_
+  have hex : ∃ i ∈ Finset.univ, 0 < w i := by
+    by_contra hno
+    push Not at hno
+    have : ∑ i, w i ≤ 0 := Finset.sum_nonpos (fun i hi => hno i hi)
+    linarith
+  obtain ⟨i0, _, hi0⟩ := hex
+  refine Finset.sum_pos' (fun i _ => mul_nonneg (hw i) (by linarith [hquarter i])) ⟨i0, Finset.mem_univ _, ?_⟩
+  exact mul_pos hi0 (by linarith [hquarter i0])
 
 /-! ### the exponential of opposite rotation vectors; quarter-turn bound -/
 
